@@ -81,7 +81,9 @@ def fast_run_cases(tag, imports, run_def, cases, nshards=16, timeout=1800):
     d = os.path.join(C.BUILD, "cases_" + tag)
     shutil.rmtree(d, ignore_errors=True)
     os.makedirs(d)
-    nshards = max(1, min(nshards, len(cases)))
+    # at most ~45 cases per file (coqc overflows its stack when it has to print much larger results); the files are
+    # compiled min(NPROC, 16) at a time
+    nshards = max(1, min(max(nshards, (len(cases) + 44) // 45), len(cases)))
     files, members = [], []
     for k in range(nshards):
         idx = list(range(k, len(cases), nshards))
@@ -148,9 +150,9 @@ def gskl_doc_form():
 SIMPLE = ["rbf", "matern05", "matern15", "matern25", "rq", "periodic", "cosine", "linear", "poly", "const"]
 STRUCT_BASES = ["rbf", "matern15", "matern25", "rq", "periodic", "linear", "poly"]
 FAMILIES = (SIMPLE + ["pp0", "pp1", "pp2", "pp3", "scale", "sum", "prod", "sm", "sdelta", "arc", "cyl", "hamming",
-                      "gskl", "gskl_div", "addstruct", "prodstruct", "ng", "active", "rbfgrad", "m52grad", "polygrad", "rbfgg"])
+                      "gskl", "gskl_div", "sumint", "addstruct", "prodstruct", "ng", "active", "rbfgrad", "m52grad", "polygrad", "rbfgg"])
 MULTI = {"rbfgrad", "m52grad", "polygrad", "rbfgg"}
-HAS_ARD = {"rbf", "matern05", "matern15", "matern25", "rq", "periodic", "linear", "pp0", "pp1", "pp2", "pp3", "sdelta",
+HAS_ARD = {"sumint", "rbf", "matern05", "matern15", "matern25", "rq", "periodic", "linear", "pp0", "pp1", "pp2", "pp3", "sdelta",
            "arc", "rbfgrad", "m52grad", "rbfgg", "addstruct", "prodstruct", "ng", "scale"}
 
 
@@ -219,6 +221,12 @@ def gen_spec(rng, fam, d, ard):
         s["sub"] = [gen_spec(rng, b, d, bool(ard) and b in HAS_ARD)]
         if fam == "ng":
             s["os"] = [u(rng, 0.2, 1.5) for _ in range(rng.randint(1, d))]
+    elif fam == "sumint":
+        # gpytorch.utils.sum_interaction_terms on the stack of d one-dimensional base covariances: documented as the
+        # sum over degrees 1..max_degree of the elementary symmetric polynomials of the base covariances
+        b = rng.choice(["rbf", "matern25", "rq", "periodic"])
+        s["sub"] = [gen_spec(rng, b, d, bool(ard))]
+        s["M"] = rng.randint(1, d)
     elif fam == "active":
         k = rng.randint(1, d)
         s["dims"] = sorted(rng.sample(range(d), k)) if rng.random() < 0.7 else [rng.randrange(d) for _ in range(k)]
@@ -326,10 +334,28 @@ def build(spec, **kw):
             return m, "(KNG %s %s)" % (qv(m.outputscale), bt)
         m = (K.AdditiveStructureKernel if f == "addstruct" else K.ProductStructureKernel)(b, num_dims=d)
         return m, "(%s %s)" % ("KAddStruct" if f == "addstruct" else "KProdStruct", bt)
+    if f == "sumint":
+        b, bt = build(spec["sub"][0])
+        return SumInteraction(b, d, spec["M"]), "(KNG %s %s)" % (qv([1.0] * spec["M"]), bt)
     if f == "active":
         b, bt = build(spec["sub"][0], active_dims=tuple(spec["dims"]))
         return b, "(KActive %s %s)" % (C.nat_list(spec["dims"]), bt)
     raise ValueError(f)
+
+
+class SumInteraction:
+    """public function gpytorch.utils.sum_interaction_terms applied to the D x N x N stack of the base kernel
+    evaluated on each input dimension separately (with that dimension's ARD parameters)"""
+
+    def __init__(self, base, d, M):
+        self.base, self.d, self.M = base, d, M
+
+    def __call__(self, x1, x2=None, diag=False):
+        from gpytorch.utils.sum_interaction_terms import sum_interaction_terms
+        x2 = x1 if x2 is None else x2
+        covars = self.base(x1, x2, last_dim_is_batch=True).to_dense()
+        r = sum_interaction_terms(covars, max_degree=self.M, dim=-3)
+        return r.diagonal(dim1=-1, dim2=-2) if diag else r
 
 
 def build_term_only(b, fam):
@@ -423,7 +449,7 @@ def variant(spec):
     f = spec["fam"]
     if f in ("poly", "polygrad"):
         return "%s:pw=%d" % (f, spec["pw"])
-    if f in ("scale", "addstruct", "prodstruct", "ng", "active", "arc", "cyl"):
+    if f in ("scale", "addstruct", "prodstruct", "ng", "active", "arc", "cyl", "sumint"):
         sub = spec["sub"][0]["fam"] if "sub" in spec else spec["base"]
         return "%s(%s)" % (f, sub)
     if f.startswith("pp"):
@@ -479,13 +505,13 @@ def compare(out, spec, case, call, ctx, got, model):
 
 def gen_cases(rng, tier):
     """list of (spec, case) covering every family x {ARD, non-ARD} x d in 1..4 x n1 != n2"""
-    reps = 1 if tier == "quick" else 6
+    reps = 2 if tier == "quick" else 8
     cases = []
     for fam in FAMILIES:
         for d in (1, 2, 3, 4):
             for ard in ((False, True) if fam in HAS_ARD else (False,)):
                 for _ in range(reps):
-                    if fam in MULTI and d == 4 and tier == "quick" and fam == "rbfgg":
+                    if fam in MULTI and d == 4 and fam == "rbfgg":     # (27 x 27 outputs overflow coqc's VM stack)
                         nmax = 2
                     elif fam in MULTI:
                         nmax = 3
@@ -520,11 +546,25 @@ def run_models(tag, items):
     return models
 
 
-def check_one(out, spec, case, kern, models, calls=CALLS, ctxs=CTXS, record=True):
+def has_fast_path(spec):
+    """does evaluation go through RBFCovariance / MaternCovariance (whose selection depends on the context)?"""
+    f = spec["fam"]
+    if f == "rbf" or f.startswith("matern"):
+        return True
+    if f in ("arc", "cyl"):
+        return True
+    return any(has_fast_path(s) for s in spec.get("sub", []))
+
+
+def check_one(out, spec, case, kern, models, calls=CALLS, ctxs=None, record=True):
     ok = True
+    if ctxs is None:
+        ctxs = CTXS
     for call in calls:
         if call == "diag2" and spec["fam"] in MULTI:
             continue                      # derivative kernels document diag only for x1 == x2
+        if spec["fam"] == "sumint" and call != "sym":
+            continue                      # documented for D x N x N stacks of covariance matrices
         model = models[{"full": "full", "sym": "sym", "diag": "sym", "diag2": "d2"}[call]]
         for ctx in ctxs:
             if record:
@@ -588,10 +628,13 @@ def run(out, ctx):
                                "atol_coincident_rows_r_kernels": ATOL_COINCIDENT_R}
     out.extra["gskl_doc_form"] = "exp(-a d)" if gskl_doc_form() else "exp(-d/a)"
     shrunk = set()
+    # (shrinking costs one coqc start per candidate pair: only spent on failures that are not recorded findings)
+    known_keys = [k["key"] for k in C.load_known() if k.get("property") == "C05" and k.get("status", "known") == "known"]
     for (spec, case, term, kern), md in zip(items, models):
         before = len(out.failures)
         check_one(out, spec, case, kern, md)
-        if len(out.failures) > before and variant(spec) not in shrunk and len(shrunk) < 6:
+        fresh = [f for f in out.failures[before:] if not any(re.search(k, f["key"]) for k in known_keys)]
+        if fresh and variant(spec) not in shrunk and len(shrunk) < 4:
             shrunk.add(variant(spec))
             shrink(out, spec, case, kern, term)
     out.tested_not_proved = [
